@@ -159,6 +159,7 @@ static void multi_case(Case& c) {
 
     // ---- pest-host table through Config rows: susceptibility k/64, mortality rate k/64, lag
     bool use_pht = config.use_mortality || rng.coin(80);
+    bool direct_pht = false; std::vector<std::vector<double>> direct_rows;
     std::vector<int> rate64((size_t)H, 0), lagv((size_t)H, 0);
     if (use_pht) {
         std::vector<std::vector<double>> values; std::ostringstream in;
@@ -171,11 +172,20 @@ static void multi_case(Case& c) {
             values.push_back({sus / 64.0, rate / 64.0, (double)lag});
             in << " " << rat64(sus) << "," << rat64(rate) << "," << lag << "/1";
         }
+        // 30 %: the table is filled directly with add_host_info (as the library's multi-host tests do) and the
+        // Config holds no pest-host rows - the model step must still let every host decide its own mortality
+        direct_pht = rng.coin(30);
+        if (direct_pht) {
+            direct_rows = values;
+            out << "mm.readpht" << in.str() << " => ok |" << in.str() << "\n";
+            stats.add("pht_direct_add_host_info");
+        } else {
         std::string err = err_kind([&] { config.read_pest_host_table(values); });
         out << "mm.readpht" << in.str() << " => " << (err.empty() ? "ok" : err) << " |";
         for (auto& r : config.pest_host_table_data()) out << " " << rat64((int)std::lround(r.susceptibility * 64)) << "," << rat64((int)std::lround(r.mortality_rate * 64)) << "," << (int)r.mortality_time_lag << "/1";
         out << "\n";
         stats.add("pht_rows");
+        }
     } else { out << "mm.nopht\n"; stats.add("pht_none"); }
 
     // ---- competency table through Config rows (well-formed: H presence columns; malformed tables are h_multi's business)
@@ -286,7 +296,13 @@ static void multi_case(Case& c) {
     MMulti multi(ptrs, config);
     std::unique_ptr<PestHostTable<MPool>> pht;
     std::unique_ptr<CompetencyTable<MPool>> ct;
-    if (use_pht) { pht.reset(new PestHostTable<MPool>(config, model.environment())); multi.set_pest_host_table(*pht); }
+    if (use_pht) {
+        if (direct_pht) {
+            pht.reset(new PestHostTable<MPool>(model.environment()));
+            for (auto& r : direct_rows) pht->add_host_info(r[0], r[1], (int)r[2]);
+        } else pht.reset(new PestHostTable<MPool>(config, model.environment()));
+        multi.set_pest_host_table(*pht);
+    }
     if (use_ct) { ct.reset(new CompetencyTable<MPool>(config, model.environment())); multi.set_competency_table(*ct); }
     MPests pests{dispersers, established, outside};
     SpreadRateAction<MMulti, int> spread_rate(multi, rows, cols, config.ew_res, config.ns_res, 40);
